@@ -523,7 +523,8 @@ def alphabet(pool, level="full", creations_left=2):
         for x in movable:
             ops.append(["remove", y, x])
     # insert
-    idxs = [0, 1, 99, -1, 1.0] if full else [0, -1]      # 1.0: a position that is a number but not an int
+    # 1.0: a position that is a number but not an int; -2 / -99: negative positions inside and beyond the list
+    idxs = [0, 1, 99, -1, 1.0, -2, -99] if full else [0, -1]
     for y in cont:
         for i in idxs:
             for x in movable:
@@ -533,15 +534,15 @@ def alphabet(pool, level="full", creations_left=2):
             ops.append(["insert", y, 0, Ds[0]])
     # reorder
     for x in movable:
-        for i in ([-1, 0, 1, 2, 99, 1.0] if full else [-1, 0, 1]):
+        for i in ([-1, 0, 1, 2, 99, 1.0, -2, -4, -99] if full else [-1, 0, 1]):
             ops.append(["reorder", x, i])
     # item assignment
     for y in cont:
-        for i in ([0, 1, -1, 99] if full else [0, 1]):
+        for i in ([0, 1, -1, 99, -99] if full else [0, 1]):
             for x in Ss + (Ps[:1] + Ds[1:2] if full else []):
                 ops.append(["setitem_sec", y, i, x])
     for y in Ss:
-        for i in ([0, 1, -1, 99] if full else [0, 1]):
+        for i in ([0, 1, -1, 99, -99] if full else [0, 1]):
             for x in Ps + (Ss[:1] if full else []):
                 ops.append(["setitem_prop", y, i, x])
     if core:
